@@ -102,7 +102,11 @@ def _optimize_operator_call_attr(  # pylint: disable=too-many-return-statements
         if fn.attr == "contains":
             arg1, arg2 = node.args
             assert len(node.args) == 2
-            return ast.Compare(arg2, [ast.In()], [arg1])
+            # `b in a` evaluates `b` before `a`, the reverse of `contains(a, b)`, so the
+            # operands may only be swapped if evaluating them has no observable order
+            if all(isinstance(arg, (ast.Constant, ast.Name)) for arg in node.args):
+                return ast.Compare(arg2, [ast.In()], [arg1])
+            return node
 
         if fn.attr == "delitem":
             target, index = node.args
